@@ -3,6 +3,7 @@ Line-protocol driver for M-Schema (SCHEMA_PROTOCOL.md). Core-only (lean_exe sche
 -/
 import ThriftVerif.Schema.Text
 import ThriftVerif.Schema.WireEq
+import ThriftVerif.Schema.WireEquivProofs
 import ThriftVerif.Schema.GoType
 import ThriftVerif.Gen.Naming
 import ThriftVerif.Schema.Lazy
@@ -105,6 +106,16 @@ def step (env : Env) (line : String) : Env × String :=
     | some (a, r) =>
       match parseValue r with
       | some (b, []) => (env, if wireEq fuel a b then "ok 1" else "ok 0")
+      | _ => (env, "bad-op")
+    | none => (env, "bad-op")
+  | "weqspec" :: rest =>
+    -- the independent statement of "the same logical value" (where it is meant to apply: clean values)
+    match parseValue rest with
+    | some (a, r) =>
+      match parseValue r with
+      | some (b, []) =>
+        if wclean fuel a && wclean fuel b then (env, if specEq fuel a b then "ok 1" else "ok 0")
+        else (env, "unclean")
       | _ => (env, "bad-op")
     | none => (env, "bad-op")
   | ["default", name] =>
